@@ -81,6 +81,12 @@ func applyTimeRange(candidates []treasure.Treasure, beaconType hydra.BeaconType,
 	if fromTime == nil && toTime == nil {
 		return candidates
 	}
+	// The key beacon has no time axis: the beacon walk ignores FromTime /
+	// ToTime for it, so the bucket route must not filter on them either
+	// (beaconTimeOf would be 0 for every candidate).
+	if beaconType == hydra.BeaconTypeKey {
+		return candidates
+	}
 	var fromNs, toNs int64
 	if fromTime != nil {
 		fromNs = fromTime.UnixNano()
